@@ -51,7 +51,7 @@ def extra(res, cases, hv, driver):
     fst = forms.run_forms(res, ["jit"], sample=(6 if res.tier == "quick" else None))
     xst = forms.run_x86_forms(res, sample=(4 if res.tier == "quick" else None))
     cst = forms.run_x86_calls(res, masks=(range(0, 128, 3) if res.tier == "quick" else None))
-    pst = forms.run_jit_programs(res, cases[:: (4 if res.tier == "quick" else 1)], [0, 2] if res.tier == "quick" else [0, 1, 2, 3])
+    pst = forms.run_jit_programs(res, cases[:: (4 if res.tier == "quick" else 6)], [0, 2] if res.tier == "quick" else [0, 1, 2, 3])
     from .. import tvrun
     tvs = tvrun.run(res, PROP, cases, LEVELS_QUICK if res.tier == "quick" else LEVELS_THOROUGH, 11, False, "jit")
     res.assumptions += ["bytecode generation for the JIT (11 registers, no fusion): every generated program x level is validated against its IR for all inputs by the certified checker of theorem C02_validated_translation (translation_validation in extra)",
